@@ -22,3 +22,7 @@ CHECKS["C07"] = c07_check.run
 
 import c09_check
 CHECKS["C09"] = c09_check.run
+
+import c13_check
+CHECKS["C13"] = c13_check.run
+CHECKS["C19"] = c13_check.run
